@@ -26,13 +26,62 @@ def third_party_chains(program, f):
                 if isinstance(r, tuple) and r[0] == "ext" and r[1].split(".")[0] in envres.ROOTS:
                     full = r[1] + "." + ".".join(reversed(chain))
                     out.setdefault(full, f.loc(n))
+    # dtype names given as strings are looked up in numpy's registry at run time (or at numba compile time)
+    for n in ast.walk(f.node):
+        if isinstance(n, ast.Call):
+            cands = [k.value for k in n.keywords if k.arg == "dtype"]
+            if isinstance(n.func, ast.Attribute) and n.func.attr in ("astype", "dtype", "view") and n.args:
+                cands.append(n.args[0])
+            for c in cands:
+                if isinstance(c, ast.Constant) and isinstance(c.value, str):
+                    out.setdefault(f'numpy.dtype:{c.value}', f.loc(n))
     return out
+
+
+def hierarchy_roots(p, roots):
+    """Class-hierarchy extension of the entry points: when a rule analysed method K.m, a subclass S of K can be the receiver,
+    so S.m (an override) is an entry point too, and so are S.__init__ and the functions it registers on the instance
+    (`self.x = some_function`), which the inherited method then calls through the attribute."""
+    by_class = {}
+    for f in roots:
+        if f.cls is not None:
+            by_class.setdefault(f.cls, set()).add(f.name)
+    extra_roots = []
+    seen = {id(f) for f in roots}
+
+    def add(f):
+        if id(f) not in seen:
+            seen.add(id(f))
+            extra_roots.append(f)
+
+    for c in list(p.classes.values()):
+        names = set()
+        for k, ns in by_class.items():
+            if c is not k and c.is_subclass_of(k):
+                names |= ns
+        if not names:
+            continue
+        for f in p.all_functions:
+            if f.cls is not c:
+                continue
+            if f.name in names:
+                add(f)
+            if f.name == "__init__":
+                add(f)
+                for n in ast.walk(f.node):
+                    if isinstance(n, ast.Assign) and isinstance(n.value, ast.Name) and any(
+                            isinstance(t, ast.Attribute) and isinstance(t.value, ast.Name) and t.value.id == "self" for t in n.targets):
+                        r = p.resolve_name(f.module, n.value.id)
+                        if hasattr(r, "node") and hasattr(r, "qualname") and hasattr(r, "params"):
+                            add(r)
+    return extra_roots
 
 
 def extra(ctx, args):
     p = ctx.program
     cg = CallGraph(p)
     roots = [p.functions[q] for q in ctx.functions_analysed if q in p.functions]
+    roots += hierarchy_roots(p, roots)
     reach = cg.reachable(roots, include_may=False) if roots else []
     chains = {}
     for f in reach:
@@ -50,6 +99,10 @@ def extra(ctx, args):
             n_ok += 1
         else:
             # an attribute of an *object* (ndarray method reached through a module-level alias) is not a module chain
+            if c.startswith("numpy.dtype:"):
+                ctx.bad(rule, c, f"numpy has no dtype named {c.split(':', 1)[1]!r} in the pinned environment ({r['why']}); reached from this "
+                        "property's entry points", chains[c], derived=c)
+                continue
             parent = c.rsplit(".", 1)[0]
             pr = envres.resolve([parent]).get(parent)
             if pr is not None and pr["exists"]:
